@@ -54,7 +54,7 @@ SPEC = {
                  "C10_code_translated", "C10_code_same_as_container_list", "C10_code_is_model", "C10_code_is_container_list",
                  "C10_code_observers", "C10_code_walks", "C10_traversals", "C10_code_refines_run", "C10_container_list_meets_spec", "C10_code_wrappers",
                  "C10_skeleton_writers", "C10_skeleton_readers", "C10_skeleton_pushlists", "C10_skeleton_type_shapes",
-                 "C10_ts_linearizable", "C10_ts_log_is_the_calls", "C10_ts_list_object", "C10_ts_list_is_sequential", "C10_ts_lock_kinds",
+                 "C10_ts_linearizable", "C10_ts_real_time_order", "C10_ts_log_is_the_calls", "C10_ts_list_object", "C10_ts_list_is_sequential", "C10_ts_lock_kinds",
                  "C10_lincheck_sound", "C10_lincheck_complete", "C10_lincheck_example", "C10_ts_no_deadlock", "C10_ts_writer_preference", "C10_newlist_flavour"],
     "trusted_base": [
         "harness/c10/xlate: the go/ast translator from ds/list_impl.go and GOROOT container/list into the statement language "
